@@ -2313,8 +2313,8 @@ func ackTypes(t int8) []int8 {
 //
 // Entries and gaps are sorted by offset before coalescing so that
 // contiguous same-type ranges merge regardless of insertion order.
-// The two are built separately (gaps are acked immediately so they
-// rarely coalesce with user entries).
+// The two sorted lists are then merged by offset: gaps are enqueued at
+// fetch time and can sit below user entries drained in the same pass.
 func buildAckRanges(entries []*shareAckState, gaps []shareAckRange) (ranges []shareAckRange, hasRenew bool) {
 	slices.SortFunc(entries, func(a, b *shareAckState) int {
 		return cmp.Compare(a.offset, b.offset)
@@ -2329,6 +2329,7 @@ func buildAckRanges(entries []*shareAckState, gaps []shareAckRange) (ranges []sh
 	// this, the request carries two adjacent [X,X,T] batches and the
 	// broker rejects with INVALID_RECORD_STATE.
 	var lastOffset int64 = -1
+	var gi int // next gap to emit; gaps and user entries are merged by offset
 	for _, e := range entries {
 		t := int8(e.status.Load())
 		if t == 0 {
@@ -2341,6 +2342,13 @@ func buildAckRanges(entries []*shareAckState, gaps []shareAckRange) (ranges []sh
 		if t == int8(AckRenew) {
 			hasRenew = true
 		}
+		// The broker rejects a partition's batches with INVALID_REQUEST
+		// unless they are in ascending offset order, so gaps below this
+		// entry must be emitted first.
+		for gi < len(gaps) && gaps[gi].firstOffset < e.offset {
+			ranges = coalesceAppendRange(ranges, gaps[gi])
+			gi++
+		}
 		ranges = coalesceAppendRange(ranges, shareAckRange{
 			firstOffset:  e.offset,
 			lastOffset:   e.offset,
@@ -2349,7 +2357,7 @@ func buildAckRanges(entries []*shareAckState, gaps []shareAckRange) (ranges []sh
 			ackType:      t,
 		})
 	}
-	for _, g := range gaps {
+	for _, g := range gaps[gi:] {
 		ranges = coalesceAppendRange(ranges, g)
 	}
 	return
